@@ -10,6 +10,10 @@
                              r.getAttribute('m') (ATLAS only)
      First(s)                s.First(lambda x: True)   (a request that must not be dropped)
      v[i]                    v[0:1]
+     a C++ function call     f(args) with one argument too many / one too few, and in the other call style
+                             (a function invoked like a method, a method like a function); the built-in
+                             DeltaR with 5 and with 3 arguments (C09 and C11: "wrong arity or wrong call
+                             style are rejected" - a surplus argument that is accepted is silently dropped)
      the dataset             MetaData with an unknown / malformed / foreign declaration
    Every graft must make translation raise (Support = MUST_REJECT).  New node kinds
    (CmpChain, AggOnly, AggFunc, CountExtra, FirstPred, Slice, GetAttr, BadMeta) exist
@@ -21,7 +25,7 @@ CI(n) == T("Const", "int", n, <<>>)
 VarN(x) == T("Var", x, 0, <<>>)
 
 NumMethodNames == {Methods[i].name : i \in {i \in DOMAIN Methods : Methods[i].ret = "num"}}
-IsNumNode(t) == \/ t.k \in {"Bin", "Count", "Sum", "Min", "Max", "Aggregate", "Math", "If"}
+IsNumNode(t) == \/ t.k \in {"Bin", "Count", "Sum", "Min", "Max", "Aggregate", "Math", "If", "UserFn"}
                 \/ (t.k = "Const" /\ t.a # "bool")
                 \/ (t.k = "Meth" /\ t.a \in NumMethodNames)
 IsAggNode(t) == t.k \in {"Count", "Sum", "Min", "Max"}
@@ -40,8 +44,16 @@ Wrappers(t) ==
          <<"invert", T("Un", "~", 0, <<t>>)>>,
          <<"cmpchain", T("CmpChain", "", 0, <<CI(0), t, CI(5)>>)>>,
          <<"count_of_value", T("Count", "", 0, <<t>>)>>,
-         <<"select_of_value", T("Sum", "", 0, <<T("Select", "vx", 0, <<t, VarN("vx")>>)>>)>>}
+         <<"select_of_value", T("Sum", "", 0, <<T("Select", "vx", 0, <<t, VarN("vx")>>)>>)>>,
+         <<"builtin_fn_surplus_arg", T("DeltaRN", "", 5, <<t>>)>>,
+         <<"builtin_fn_missing_arg", T("DeltaRN", "", 3, <<t>>)>>,
+         <<"builtin_fn_as_method", T("DeltaRN", "method", 4, <<t>>)>>}
    ELSE {})
+  \cup (IF t.k = "UserFn"
+        THEN {<<"userfn_surplus_arg", [t EXCEPT !.n = @ + 1, !.ch = Append(@, CI(2))]>>,
+              <<"userfn_missing_arg", [t EXCEPT !.n = @ - 1, !.ch = SubSeq(@, 1, Len(@) - 1)]>>,
+              <<"userfn_wrong_style", [t EXCEPT !.b = IF @ = "method" THEN "function" ELSE "method", !.d = 2]>>}
+        ELSE {})
   \cup (IF IsAggNode(t)
         THEN {<<"seq_arith_" \o op, T("Bin", op, 0, <<t.ch[1], CI(2)>>)>> : op \in ArithOps}
              \cup {<<"arith_seq_" \o op, T("Bin", op, 0, <<CI(2), t.ch[1]>>)>> : op \in ArithOps}
@@ -62,12 +74,18 @@ Wrappers(t) ==
              \cup {<<"str_arith_" \o op, T("Bin", op, 0, <<t, StrA>>)>> : op \in {"+", "*"}}
              \cup {<<"arith_str_" \o op, T("Bin", op, 0, <<StrA, t>>)>> : op \in {"+", "*"}}
         ELSE {})
+  \* e.Jets() / e.Jets("a", "b") / e.Jets(1): a collection call with the wrong number or type of arguments (C06, C09)
+  \cup (IF t.k = "Coll"
+        THEN {<<"collcall_" \o v, T("CollBad", v, 0, <<t>>)>> : v \in {"no_bank", "two_banks", "int_bank"}}
+        ELSE {})
   \cup (IF t.k = "First" THEN {<<"first_predicate", T("FirstPred", "", 0, <<t.ch[1]>>)>>} ELSE {})
   \cup (IF t.k = "Idx" THEN {<<"slice", T("Slice", "", 0, <<t.ch[1]>>)>>} ELSE {})
   \cup (IF t.k = "DS"
         THEN {<<"badmeta_" \o m, T("BadMeta", m, 0, <<t>>)>> :
                 m \in {"unknown_type", "no_type", "method_missing_keys", "inject_unknown_field", "function_missing_keys",
                        "collection_other_backend", "collection_extra_key", "collection_missing_element",
+                       \* a key that only the OTHER experiment's collection declaration knows
+                       "collection_foreign_key", "collection_spurious_element",
                        \* two blocks of one name with different content (job scripts exist on ATLAS only)
                        "inject_conflict", "jobscript_conflict@atlas"}}
         ELSE {})
